@@ -56,6 +56,9 @@ TEMPLATES = {
     'multiline': ('é café\n<div>\n   ${L(0)} and ${ L(1) }\n\t<b class="${L(2)}">x</b>\n</div>', 3),
     'guards': ('<p tal:condition="L(0)" tal:repeat="i range(L(1))" tal:omit-tag="not L(2)">x${L(3)}</p>', 4),
     'replace-switch': ('<div tal:switch="L(0)">\n <p tal:case="L(1)" tal:replace="L(2)">x</p>\n</div>', 3),
+    # expressions that start in column 0 of a later line (multi-line attribute values and interpolations)
+    'column-zero': ('<div tal:content="\nL(0)\n">x</div><p tal:define="y\nL(1)">k</p>${\nL(2)}\n'
+                    '<b tal:condition="\n\nL(3)">z</b>', 4),
     'string-structure': ('<p tal:content="string:a${L(0)}b">x</p><p tal:content="structure L(1)">y</p>'
                          '<p tal:content="python: L(2)">z</p>', 3),
 }
@@ -80,11 +83,22 @@ FILES = {
         'leaf.pt': '<em>\n\n  ${L(1)}</em>',
     },
 }
+FILES['macro-chain-composite'] = {
+    # use-macro expressions with sub-expressions of their own: a computed name, and a fallback alternative
+    'main.pt': '<html>\n  <div metal:use-macro="load: ${nm}.pt">\n  </div>\n ${L(2)}</html>',
+    'lib.pt': '<section>\n   <p tal:content="L(0)">x</p>\n <metal:b use-macro="nosuch | load: leaf.pt" /></section>',
+    'leaf.pt': '<em>\n\n  ${L(1)}</em>',
+}
 # (file, expression) of each leaf and the call chain (file, expression text) from innermost outwards
 CHAINS = {
     'macro-chain': {
         0: [('lib.pt', 'L(0)'), ('main.pt', 'load: lib.pt')],
         1: [('leaf.pt', 'L(1)'), ('lib.pt', 'load: leaf.pt'), ('main.pt', 'load: lib.pt')],
+        2: [('main.pt', 'L(2)')],
+    },
+    'macro-chain-composite': {
+        0: [('lib.pt', 'L(0)'), ('main.pt', 'load: ${nm}.pt')],
+        1: [('leaf.pt', 'L(1)'), ('lib.pt', 'nosuch | load: leaf.pt'), ('main.pt', 'load: ${nm}.pt')],
         2: [('main.pt', 'L(2)')],
     },
 }
@@ -163,7 +177,7 @@ def prepare(cfg):
         STATE['expect'] = exp
         STATE['dir'] = d
     # warm-up: lazily loaded/compiled templates (load:) are cooked natively, not under tracing
-    STATE['tpl'].render(L=lambda k: 1, d=0)
+    STATE['tpl'].render(L=lambda k: 1, d=0, nm='lib')
 
 
 REC = re.compile(r' - Expression: "(.*)"\n - Filename:   (.*)\n - Location:   \(line (\d+): col (\d+)\)')
@@ -192,7 +206,7 @@ def check(sel, ci, a):
             raise exc
         return 1
     try:
-        out = STATE['tpl'].render(L=L, d=0)
+        out = STATE['tpl'].render(L=L, d=0, nm='lib')
     except BaseException as e:
         if type(e).__module__.startswith('crosshair') or state['raised'] is None:
             raise
@@ -244,7 +258,7 @@ def explain(cfg, sel, ci, a):
             raise mk_exc(ci, a)
         return 1
     try:
-        out = STATE['tpl'].render(L=L, d=0)
+        out = STATE['tpl'].render(L=L, d=0, nm='lib')
         return {'rendered': out}
     except BaseException as e:
         return {'type': [c.__name__ for c in type(e).__mro__], 'args': repr(e.args), 'str': str(e)[:1500],
